@@ -86,6 +86,14 @@ func (x *exec) menu(core bool) []string {
 	if _, _, ok := x.lowestConfirmed(); ok {
 		m = append(m, "in:chan:bound")
 	}
+	// an unanswered transaction: to the instant just after it has failed (before the periodic timers act on the failure)
+	for _, p := range x.out {
+		if p.dropped {
+			m = append(m, "adv:txfail")
+
+			break
+		}
+	}
 	if core {
 		return append(m, "adv:2s", "adv:31s")
 	}
